@@ -105,17 +105,41 @@ func formatFile(path string) error {
 	f.Close()
 
 	if *writeInPlace {
-		f, err := os.Create(path)
-		if err != nil {
-			return fmt.Errorf("Failed to open path to rewrite: %w", err)
-		}
-		_, err = f.Write(out.Bytes())
-		if err != nil {
+		if err := replaceFile(path, out.Bytes()); err != nil {
 			return fmt.Errorf("Failed to write to output: %w", err)
 		}
-		f.Close()
 	} else {
 		fmt.Println(out.String())
 	}
 	return nil
+}
+
+// replaceFile writes data to a temporary file next to path and renames it over
+// path, so that a failing or interrupted write never leaves path truncated or
+// half-written.
+func replaceFile(path string, data []byte) (err error) {
+	mode := os.FileMode(0o644)
+	if info, statErr := os.Stat(path); statErr == nil {
+		mode = info.Mode().Perm()
+	}
+	tmp, err := os.CreateTemp(filepath.Dir(path), "."+filepath.Base(path)+".tmp*")
+	if err != nil {
+		return err
+	}
+	defer func() {
+		if err != nil {
+			tmp.Close()
+			os.Remove(tmp.Name())
+		}
+	}()
+	if _, err = tmp.Write(data); err != nil {
+		return err
+	}
+	if err = tmp.Chmod(mode); err != nil {
+		return err
+	}
+	if err = tmp.Close(); err != nil {
+		return err
+	}
+	return os.Rename(tmp.Name(), path)
 }
